@@ -68,6 +68,20 @@ def _make_data(cfg):
         return out
     if kind == "integer":
         return rng.randint(-3, 4, size=shape).astype(float)
+    if kind == "counts":           # non-negative counts (used with data_dtype="int64": an integer array)
+        return rng.randint(0, 6, size=shape).astype(float)
+    if kind == "complex":
+        return rng.standard_normal(shape) + 1j * rng.standard_normal(shape)
+    if kind == "complex_lowrank":
+        r = cfg.get("data_rank", 2)
+        fs = [rng.standard_normal((s, r)) + 1j * rng.standard_normal((s, r)) for s in shape]
+        out = np.zeros(shape, dtype=complex)
+        for j in range(r):
+            comp = fs[0][:, j]
+            for f in fs[1:]:
+                comp = np.multiply.outer(comp, f[:, j])
+            out += comp
+        return out + 0.3 * np.std(out) * (rng.standard_normal(shape) + 1j * rng.standard_normal(shape))
     if kind == "signed":
         return rng.standard_normal(shape) * 2 - 0.3
     if kind == "negative":
@@ -124,21 +138,29 @@ def qe(x):
     return QLIM if v == QBIG else (-QLIM if v == QNBIG else v)
 
 
+def _num(a):
+    """float64 view of a real array, complex128 view of a complex one (never drops an imaginary part)."""
+    a = np.asarray(a)
+    return a.astype(complex) if np.iscomplexobj(a) else a.astype(float)
+
+
 def gram_dev(M):
-    M = np.asarray(M, dtype=float)
+    M = _num(M)
     if M.size == 0:
         return 0.0
-    G = M.T @ M
+    G = M.conj().T @ M
     return float(np.max(np.abs(G - np.eye(G.shape[0]))))
 
 
 def col_norms(F):
-    return np.linalg.norm(np.asarray(F, dtype=float), axis=0)
+    return np.linalg.norm(_num(F), axis=0)
 
 
 def cp_struct(weights, factors):
     """Canonical-form measurements of a CP tensor."""
-    w = np.asarray(weights, dtype=float)
+    w = _num(weights)
+    if np.iscomplexobj(w):          # weights are norms: a complex weight vector must still be real-valued to be canonical
+        w = np.where(np.abs(w.imag) > 0, np.nan, w.real).astype(float)
     norms = [col_norms(f) for f in factors]
     # deviation from unit norm over columns that are not (numerically) zero
     dev = 0.0
@@ -160,7 +182,7 @@ def cond_bucket_cp(weights, factors):
         for i, f in enumerate(factors):
             if i == m:
                 continue
-            g = np.asarray(f, dtype=float).T @ np.asarray(f, dtype=float)
+            g = _num(f).conj().T @ _num(f)
             G = g if G is None else G * g
         if G is None:
             continue
@@ -180,8 +202,10 @@ def mins(arrs):
         a = np.asarray(a)
         if a.size == 0:
             out.append(0)
-        elif not np.all(np.isfinite(a.astype(float))):
+        elif not np.all(np.isfinite(_num(a))):
             out.append(QNAN)
+        elif np.iscomplexobj(a):
+            out.append(qe(float(a.real.min())))
         else:
             out.append(qe(float(a.min())))
     return out
@@ -301,6 +325,12 @@ def _run_alg(cfg, data, cap, with_cb, tl, D):
     alg = cfg["alg"]
     seed = cfg["seed"]
     rank = cfg["rank"]
+    # argument forms: memory layout of the data, NumPy integer types for rank / budget
+    if cfg.get("layout") == "F" and isinstance(data, np.ndarray):
+        data = np.asfortranarray(data)
+    if cfg.get("np_ints"):
+        cap = np.int64(cap)
+        rank = np.int64(rank) if isinstance(rank, int) else [np.int64(r) for r in rank]
     cbs = []
     out = {"errs": None, "cbs": cbs, "extra": {}}
     fixed = list(cfg.get("fixed", [])) or None
@@ -483,11 +513,15 @@ def _run_alg(cfg, data, cap, with_cb, tl, D):
 def make_input(cfg):
     x = _make_input(cfg)
     sc = cfg.get("scale")
-    if sc and cfg["alg"] == "parafac2":
-        return [s_ * sc for s_ in x]
-    if sc and cfg["alg"] == "cmtf":
-        return (x[0] * sc, x[1] * sc)
-    return x * sc if sc else x
+    dt = cfg.get("data_dtype")      # the dtype the DATA is held in (the user initialisation stays float64)
+    if cfg["alg"] == "parafac2":
+        x = [s_ * sc for s_ in x] if sc else x
+        return [s_.astype(dt) for s_ in x] if dt else x
+    if cfg["alg"] == "cmtf":
+        x = (x[0] * sc, x[1] * sc) if sc else x
+        return (x[0].astype(dt), x[1].astype(dt)) if dt else x
+    x = x * sc if sc else x
+    return x.astype(dt) if dt else x
 
 
 def _make_input(cfg):
@@ -601,9 +635,9 @@ def structure(cfg, data, dec):
         st["shapes"] = [list(np.shape(f)) for f in fs]
         st["core_shape"] = list(np.shape(core))
         st["orth_dev"] = qe(max([gram_dev(f) for f in fs] + [0.0]))
-        proj = np.asarray(data, dtype=float)
+        proj = _num(data)
         for m, f in enumerate(fs):
-            proj = np.moveaxis(np.tensordot(np.asarray(f).T, proj, axes=(1, m)), 0, m)
+            proj = np.moveaxis(np.tensordot(np.asarray(f).conj().T, proj, axes=(1, m)), 0, m)
         st["core_proj_dev"] = qe(rel(np.asarray(core) - proj, data))
         st["colnorm_dev"] = qe(max([abs(v - 1.0) for f in fs for v in col_norms(f) if v > 1e-12] + [0.0]))
         st["mins"] = mins([core] + list(fs))
@@ -809,6 +843,12 @@ def nonneg_extra_configs(tier, seed):
         for data in ("negative", "sparse", "integer"):
             add(alg, shape=[4, 5, 3], rank=2, data=data, init=str(rng.choice(["svd", "random"])), tol="tiny", normalize=bool(rng.rand() < 0.5))
         add(alg, shape=[4, 5, 3], rank=2, data="signed", init="user", init_kind="nonneg", tol="tiny")
+    # fixed modes (non-negative user start) with the non-negative modes left at their default: the FREE modes stay >= 0
+    for alg, kw in (("nn_parafac", {}), ("nn_parafac_hals", {}), ("nn_parafac_hals", {"nn_modes": "all"}),
+                    ("constrained_parafac", {"constraints": {"non_negative": True}})):
+        for shp, fx in (([4, 5, 3], [0]), ([4, 5, 3], [1]), ([3, 4, 2, 3], [0, 1]), ([3, 4, 2, 3], [2, 0])):
+            add(alg, shape=shp, rank=2, data=str(rng.choice(["signed", "generic", "nonneg"])), init="user", init_kind="nonneg", tol="tiny", fixed=fx,
+                caps=[0, 1, 2, 5], **kw)
     for alg in ("nn_tucker", "nn_tucker_hals"):
         for data in ("sparse", "integer"):
             add(alg, shape=[4, 5, 3], rank=[2, 2, 2], data=data, init=str(rng.choice(["svd", "random"])), tol="zero",
@@ -954,6 +994,12 @@ def driver_configs(tier, seed, algs=None):
                         caps=[0, 1, 2, 3, 5, 8])
             base.update(kw)
             add(alg, **base)
+    # ---- complex-valued data (supported by CP-ALS and HOOI: conjugate transposes everywhere)
+    for data in ("complex", "complex_lowrank"):
+        for init in ("svd", "random"):
+            add("parafac", shape=[4, 5, 3], rank=2, data=data, init=init, tol="zero", normalize=bool(rng.rand() < 0.5), callback=init == "svd")
+            add("tucker", shape=[4, 5, 3], rank=[2, 3, 2], data=data, init=init, tol="zero")
+        add("tucker", shape=[3, 4, 2, 3], rank=[2, 2, 2, 2], data=data, init="random", tol="zero")
     # ---- line search on data of small / large norm (the acceptance test compares relative errors)
     for sc in (1e-2, 1e-3, 50.0):
         add("parafac", shape=[6, 7, 8], rank=2, data="generic", init="random", tol="zero", linesearch=True, scale=sc, callback=True,
@@ -1012,16 +1058,19 @@ def driver_configs(tier, seed, algs=None):
         sc = ch([None, None, 1e-2, 30.0])
         add("parafac", shape=ch([[4, 5, 3], [3, 3, 4], [5, 4], [3, 4, 2, 3], [6, 1, 4]]), rank=ch([1, 2, 3]), data=ch(["generic", "lowrank", "integer"]),
             init=ch(["svd", "random"]), normalize=ch([False, True]), tol=ch(["zero", "tiny", "loose"]), callback=ch([False, True]),
-            linesearch=ch([False, False, True]), tenalg=ch(["core", "einsum"]), scale=sc, caps=list(range(0, 13)))
+            linesearch=ch([False, False, True]), tenalg=ch(["core", "einsum"]), scale=sc, caps=list(range(0, 13)),
+            layout=ch([None, "F"]), np_ints=ch([False, True]))
         for alg in ("nn_parafac", "nn_parafac_hals"):
             kw = {}
             shp = ch([[4, 5, 3], [5, 4], [3, 4, 2, 3]])
             if alg == "nn_parafac_hals":
                 kw["nn_modes"] = ch(["all", [0], [0, len(shp) - 1], [1]])      # only modes the tensor has
             add(alg, shape=shp, rank=ch([1, 2, 3]), data=ch(["nonneg", "nn_lowrank", "signed", "sparse"]),
-                init=ch(["svd", "random"]), normalize=ch([False, True]), tol=ch(["zero", "tiny", "loose"]), scale=ch([None, 1e-2, 30.0]), **kw)
+                init=ch(["svd", "random"]), normalize=ch([False, True]), tol=ch(["zero", "tiny", "loose"]), scale=ch([None, 1e-2, 30.0]),
+                layout=ch([None, "F"]), np_ints=ch([False, True]), **kw)
         add("tucker", shape=ch([[4, 5, 3], [5, 4], [3, 4, 2, 3], [4, 1, 3]]), rank=ch([[1, 1, 1, 1], [2, 2, 2, 2], [2, 1, 2, 1], [3, 2, 1, 2]]),
-            data=ch(["generic", "lowrank", "integer"]), init=ch(["svd", "random"]), tol=ch(["zero", "loose"]), scale=sc)
+            data=ch(["generic", "lowrank", "integer"]), init=ch(["svd", "random"]), tol=ch(["zero", "loose"]), scale=sc,
+            layout=ch([None, "F"]), np_ints=ch([False, True]))
         cfgs[-1]["rank"] = [min(r, s_) for r, s_ in zip(cfgs[-1]["rank"], cfgs[-1]["shape"])]
         for alg in ("nn_tucker", "nn_tucker_hals"):
             kw = {"algorithm": ch(["fista", "active_set"])} if alg == "nn_tucker_hals" else {}
@@ -1105,6 +1154,24 @@ def warm_configs(tier, seed):
         base = dict(shape=[3, 4, 2, 3], rank=2, init_weights="positive", tol="zero", fixed=[2, 0])
         base.update(kw)
         add(alg, **base)
+    # the DATA held in another dtype than the (float64) user initialisation: float32 measurements, integer counts.
+    # The start is still exactly the supplied tensor and fixed factors come back bit-identical (same dtype, same bytes).
+    for alg, kw in (("parafac", {}), ("nn_parafac", {"init_kind": "nonneg", "tol": "tiny"}),
+                    ("nn_parafac_hals", {"init_kind": "nonneg", "tol": "tiny"}),
+                    ("constrained_parafac", {"init_kind": "nonneg", "constraints": {"non_negative": True}})):
+        for dt, data in (("float32", "nonneg"), ("int64", "counts"), ("int32", "counts")):
+            for fx, wk in (([], "none"), ([0], "none"), ([1, 0], "positive")):
+                base = dict(shape=shape, rank=2, data=data, data_dtype=dt, init_weights=wk, tol="zero", fixed=fx, caps=[0, 1, 2, 3])
+                base.update(kw)
+                add(alg, **base)
+    for dt, data in (("float32", "generic"), ("int64", "counts")):
+        for fx in ([], [0], [2, 1]):
+            add("tucker", shape=shape, rank=[2, 3, 2], data=data, data_dtype=dt, tol="zero", fixed=fx, caps=[0, 1, 2, 3])
+    # fixed modes x line search: an accepted jump extrapolates EVERY factor; fixed ones must come out of it untouched
+    # (the line search is active from the 7th sweep on; slowly converging noisy data makes the jumps accepted)
+    for j, fx in enumerate(([0], [1], [2], [0, 2], [1, 0])):
+        add("parafac", shape=[6, 7, 8], rank=3, data="noisy_lowrank", init_weights=["none", "positive", "mixed", "ones", "negative"][j], tol="tiny",
+            linesearch=True, fixed=fx, caps=[0, 6, 7, 8, 9, 12, 13, 20])
     # NN Tucker HALS
     add("nn_tucker_hals", shape=shape, rank=[2, 2, 2], data="nonneg", tol="zero", algorithm="fista", caps=[0, 1, 2])
     for fx in ([0], [1], [0, 1], [2]):
